@@ -4,7 +4,7 @@
      C01_fragment_preservation -- semantic preservation of the backend model (Back/IR.v `lower` + the AST
      twin Pres/EmitAst.v of the text emitter Back/Emit.v) with respect to the reference interpreter
      Sem/SyltSem.v (source side) and the Lua 5.3 interpreter model Lua/LuaCore.v (target side), for the
-     computable fragment Pres/Frag.v `frag` (STAGE 4g: int/bool/string expressions, print, definitions, assignments
+     computable fragment Pres/Frag.v `frag` (STAGE 4h: int/bool/string expressions, print, definitions, assignments
      = += -= *=, if/elif/else expressions and statements, loops with break and continue, blocks, inside
      top-level functions; the outer definitions (global values and FUNCTIONS with parameters, `start` among them, in any
      order the resolver gives them),
@@ -15,7 +15,8 @@
      own locals -- called by name, and passed BY NAME to parameters of function type, where they are called or
      passed on, and LAMBDA expressions in argument position: FUNCTIONS AS ARGUMENTS; FUNCTIONS THAT RETURN FUNCTIONS -- a
      lambda as the last expression of the body is a new closure per call over that call's parameters and locals, which
-     outlive the call; the returned function is passed to a parameter of function type or returned again).  The Lua side runs the statements of the
+     outlive the call; the returned function is passed to a parameter of function type, returned again, or named by a
+     constant  c :: mkc(0)  and then called and passed on by that name).  The Lua side runs the statements of the
      REAL preamble.lua (Gen/GenPreamble.v, regenerated on every run) followed by the program's statements.
    WHAT IS CHECKED AT RUN TIME, per program of the tie (tools/props/c01.py):
      * component "emit_ast": LuaParse.parse_lua Lua53 (real compiler output) = ParseOk (chunk_ast code), i.e. the
@@ -826,6 +827,75 @@ Proof.
   cbn [r_final] in Hfin. destruct (o_final _); try contradiction. reflexivity.
 Qed.
 
+(* ---- a fourteenth program (stage 4h): function-valued constants.  c1 and c2 hold two closures returned by two calls
+   of mkc: each keeps its own counter between the calls ----
+     (mkc, adder, use2, app as in the thirteenth program)
+     start :: fn do
+       c1 :: mkc(0)   c2 :: mkc(10)
+       print(c1())  print(c1())  print(c2())  print(c1())        -- 1 2 11 3
+       add3 :: adder(3)
+       print(add3(4))  print(app(add3, 10))                      -- 7 13
+       print(use2(c2))                                           -- 12 * 10 + 13
+     end                                                                                          *)
+Definition ex_prog14 : resolved :=
+  mkResolved
+    [mkVar 0 "print" sp0 true Const; mkVar 1 "mkc" sp0 true Const; mkVar 2 "adder" sp0 true Const; mkVar 3 "use2" sp0 true Const;
+     mkVar 4 "app" sp0 true Const; mkVar 5 "start" sp0 true Const; mkVar 6 "== STACK ==" sp0 false Const;
+     mkVar 7 "n" sp0 false Const; mkVar 8 "c" sp0 false Mutable; mkVar 9 "a" sp0 false Const; mkVar 10 "b" sp0 false Const;
+     mkVar 11 "f" sp0 false Const; mkVar 12 "g" sp0 false Const; mkVar 13 "x" sp0 false Const;
+     mkVar 14 "c1" sp0 false Const; mkVar 15 "c2" sp0 false Const; mkVar 16 "add3" sp0 false Const]
+    [SExternalDefinition "print" 0 Const (TImplied sp0) sp0;
+     SDefinition "mkc" 1 Const (TImplied sp0)
+       (EFunction "lambda" [("n"%string, 7%N, sp0, tint)] tfn0
+          [SDefinition "c" 8 Mutable tint (ERead 7 sp0) sp0;
+           SStatementExpression
+             (EFunction "lambda" [] tint
+                [SAssignment Add (ERead 8 sp0) (EInt 1 sp0) sp0; SStatementExpression (ERead 8 sp0) sp0] false sp0) sp0] false sp0) sp0;
+     SDefinition "adder" 2 Const (TImplied sp0)
+       (EFunction "lambda" [("a"%string, 9%N, sp0, tint)] tfn1
+          [SStatementExpression
+             (EFunction "lambda" [("b"%string, 10%N, sp0, tint)] tint
+                [SStatementExpression (EBinOp Add (ERead 9 sp0) (ERead 10 sp0) sp0) sp0] false sp0) sp0] false sp0) sp0;
+     SDefinition "use2" 3 Const (TImplied sp0)
+       (EFunction "lambda" [("f"%string, 11%N, sp0, tfn0)] tint
+          [SStatementExpression (EBinOp Add (EBinOp Mul (call 11 []) (EInt 10 sp0) sp0) (call 11 []) sp0) sp0] false sp0) sp0;
+     SDefinition "app" 4 Const (TImplied sp0)
+       (EFunction "lambda" [("g"%string, 12%N, sp0, tfn1); ("x"%string, 13%N, sp0, tint)] tint
+          [SStatementExpression (call 12 [ERead 13 sp0]) sp0] false sp0) sp0;
+     SDefinition "start" 5 Const (TImplied sp0)
+       (EFunction "lambda" [] (TImplied sp0)
+          [SDefinition "c1" 14 Const (TImplied sp0) (call 1 [EInt 0 sp0]) sp0;
+           SDefinition "c2" 15 Const (TImplied sp0) (call 1 [EInt 10 sp0]) sp0;
+           SStatementExpression (call 0 [call 14 []]) sp0;
+           SStatementExpression (call 0 [call 14 []]) sp0;
+           SStatementExpression (call 0 [call 15 []]) sp0;
+           SStatementExpression (call 0 [call 14 []]) sp0;
+           SDefinition "add3" 16 Const (TImplied sp0) (call 2 [EInt 3 sp0]) sp0;
+           SStatementExpression (call 0 [call 16 [EInt 4 sp0]]) sp0;
+           SStatementExpression (call 0 [call 4 [ERead 16 sp0; EInt 10 sp0]]) sp0;
+           SStatementExpression (call 0 [call 3 [ERead 15 sp0]]) sp0]
+          false sp0) sp0].
+
+Example C01_example14_hypotheses :
+  frag 30 ex_prog14 = true /\
+  (exists code, lower 30 ex_prog14 = Ok code) /\
+  SyltSem.run 60 ex_prog14 = mkRun ["1"; "2"; "11"; "3"; "7"; "13"; "133"]%string ODone.
+Proof. split; [vm_compute; reflexivity | split; [eexists; vm_compute; reflexivity | vm_compute; reflexivity]]. Qed.
+
+Theorem C01_function_constants_by_theorem code :
+  lower 30 ex_prog14 = Ok code ->
+  exists m, forall m', (m <= m')%nat ->
+    let out := LuaCore.run_block Lua53 m' (chunk_ast code) in
+    o_trace out = ["1"; "2"; "11"; "3"; "7"; "13"; "133"]%string /\ o_final out = FDone.
+Proof.
+  intros Hl.
+  assert (Hf : frag 30 ex_prog14 = true) by (vm_compute; reflexivity).
+  assert (Hr : SyltSem.run 60 ex_prog14 = mkRun ["1"; "2"; "11"; "3"; "7"; "13"; "133"]%string ODone) by (vm_compute; reflexivity).
+  destruct (C01_fragment_preservation 30 ex_prog14 code 60 _ Hf Hl Hr I) as (m & Hm).
+  exists m. intros m' Hle. specialize (Hm m' Hle). cbv zeta in *. destruct Hm as [Ht Hfin]. split; [exact Ht|].
+  cbn [r_final] in Hfin. destruct (o_final _); try contradiction. reflexivity.
+Qed.
+
 Print Assumptions C01_fragment_preservation.
 Print Assumptions C01_fragment_preservation_text.
 Print Assumptions C01_activations_own_locals_by_theorem.
@@ -834,6 +904,7 @@ Print Assumptions C01_strings_by_theorem.
 Print Assumptions C01_functions_as_arguments_by_theorem.
 Print Assumptions C01_lambdas_by_theorem.
 Print Assumptions C01_returned_closures_by_theorem.
+Print Assumptions C01_function_constants_by_theorem.
 
 (* ---- source tie: the hand-written model behind these theorems mirrors the files below; the digests of their
    functions regenerated from /repo on this run equal the reviewed ones (coq/Doc/DocSrcDigest.v).  Any edit of
